@@ -174,6 +174,36 @@ impl Driver {
         }
     }
 
+    /// Wraps an already opened world (after crash recovery) with the given model.
+    pub fn adopt(world: World, model: Model, probe_seed: u64) -> Driver {
+        let names = world.names.clone();
+        let image = world.image();
+        let foreign: Image = image.iter().filter(|(n, _)| !is_wal_name(n)).map(|(n, v)| (n.clone(), v.clone())).collect();
+        let cursor = world.fs.borrow().last_cursor.clone().and_then(|(name, pos)| wal_number(&name).map(|n| (n, pos as usize)));
+        let wal_mark = world.trace_len();
+        Driver {
+            names,
+            world,
+            models: vec![model.clone()],
+            model,
+            steps: Vec::new(),
+            failures: Vec::new(),
+            stopped: false,
+            probes: Probes::default(),
+            probe_seed,
+            light: false,
+            hw: BTreeMap::new(),
+            cursor,
+            rec_files: BTreeMap::new(),
+            wal_pending: 0,
+            wal_mark,
+            flushed: true,
+            mem_used_prev: 0,
+            foreign,
+            digest: crate::prng::Digest::new(),
+        }
+    }
+
     fn fail(&mut self, prop: &'static str, clause: &str, detail: String) {
         let op_index = self.steps.len();
         self.failures.push(Failure { prop, clause: clause.to_string(), op_index, detail });
